@@ -1,4 +1,5 @@
 import Driver.C07SemX
+import Driver.C08
 /-! `c09rows`: the statement the REAL ClickHouse planner built (reflection dump → `Sel`), evaluated by the reference
     interpreter `Sql.evalSelX` (C07's semantics of the SQL subset, SELECT aliases visible) on a small database, with the
     oracles (RE2, label documents, number parsing, JSON path extraction, capture groups) given as finite tables the Go
@@ -52,7 +53,35 @@ def rows (args : List String) : Option String := do
       some ("rows " ++ (if out.isEmpty then "-" else ";".intercalate (out.map rowOut)))
   | _ => none
 
+/-! ### metric queries (C08's model, oracles and database format): the matrix the statement of the whole query returns, and
+    the log rows the statement of its selector returns when the script is handed over -/
+def ratOut : Val → String
+  | .rat q => s!"{q.num}/{q.den}"
+  | .int i => s!"{i}/1"
+  | _ => "?"
+
+def fpOut : Val → String
+  | .int i => toString i
+  | .null => "null"
+  | _ => "?"
+
+/-- one matrix row: `fp:labels:ts:num/den` -/
+def mrowOut (r : Row) : String :=
+  fpOut (r.get "fingerprint") ++ ":" ++ labelsOut (r.get "labels") ++ ":" ++ intOut (r.get "timestamp_ns") ++ ":" ++
+    ratOut (r.get "value")
+
+def matrix (args : List String) : Option String := do
+  let (c, rest) ← Driver.C08.mctx? args
+  let (q, rest') ← Driver.C08.query? rest
+  let d ← Driver.C08.db? rest'
+  let plan := (evalSelA Driver.C08.oracles (d.toDbM c) (planMetric c q)).map normRow
+  let sel := q.rangeAgg.sel
+  let logRows := evalSelX Driver.C08.oracles (d.toDb c.toCtx) (planLogX c.toCtx false ⟨sel.matchers, sel.stages.map .fl⟩)
+  some ("matrix " ++ (if plan.isEmpty then "-" else ";".intercalate (plan.map mrowOut)) ++ " rows " ++
+    (if logRows.isEmpty then "-" else ";".intercalate (logRows.map rowOut)))
+
 def handle : List String → Option String
   | "c09rows" :: args => rows args
+  | "c09matrix" :: args => matrix args
   | _ => none
 end Driver.C09Eng
